@@ -279,6 +279,7 @@ class LibMixin:
             r = self.uf("str_" + name, [s], STR)
             if name in ("lower", "upper"):
                 st.assume(smt.Eq(smt.Eq(r, smt.Str("")), smt.Eq(s, smt.Str(""))))
+                st.assume(smt.Eq(self.uf("str_" + name, [r], STR), r))      # idempotent [A, validated on CPython]
                 # case mapping neither creates nor removes these punctuation characters [A, validated on CPython]
                 for ch in ("'", '"'):
                     st.assume(smt.Eq(smt.Contains(r, smt.Str(ch)), smt.Contains(s, smt.Str(ch))))
